@@ -15,6 +15,19 @@ theorem enterRules_one (c : Cfg) (n : Node) (ti : TI) (r : Rule) (rs : RS) :
   obtain ⟨a, b⟩ := p
   cases b <;> simp
 
+theorem visitNode_skip_single (s : SchemaD) (fx : Fixes) (r : Rule) (n : Node) (body : St → St) (st : St)
+    (h : (enterRule s fx r n (tiEnter s n st.ti) st.rs).2 = true) :
+    visitNode ⟨s, fx, [r]⟩ n body st =
+      { ti := tiLeave n (tiEnter s n st.ti), rs := (enterRule s fx r n (tiEnter s n st.ti) st.rs).1 } := by
+  have e : enter ⟨s, fx, [r]⟩ n st = ({ ti := tiEnter s n st.ti, rs := (enterRule s fx r n (tiEnter s n st.ti) st.rs).1 },
+      (enterRule s fx r n (tiEnter s n st.ti) st.rs).2) := by simp only [enter, enterRules_one]
+  have h2 : (enter ⟨s, fx, [r]⟩ n st).2 = true := by rw [e]; exact h
+  have := leaveSkipped_enter_single s fx r n st h2
+  unfold visitNode
+  rw [e] at this ⊢
+  simp only [h, ↓reduceIte]
+  exact this
+
 /-- single-rule chain: `CFI` from facts about `enterRule` / `leaveRule` under an invariant on the rule state -/
 theorem cfi_of (s : SchemaD) (fx : Fixes) (r : Rule) (lvl : Node → Bool) (I : RS → Prop) (f g : Node → Nat)
     (hin : ∀ n, n.isTop = false → lvl n = false)
@@ -55,12 +68,7 @@ theorem document_skip (s : SchemaD) (fx : Fixes) (r : Rule) (d : Doc)
     (hs : (enterRule s fx r (.document d) {} {}).2 = true) :
     alone s fx r d = { ti := {}, rs := (enterRule s fx r (.document d) {} {}).1 } := by
   unfold alone
-  rw [visitDocument]
-  unfold visitNode
-  have e : enter ⟨s, fx, [r]⟩ (.document d) {} = ({ ti := {}, rs := (enterRule s fx r (.document d) {} {}).1 },
-      (enterRule s fx r (.document d) {} {}).2) := by
-    simp only [enter, enterRules_one, tiEnter]
-  rw [e, hs]
+  rw [visitDocument, visitNode_skip_single s fx r (.document d) _ {} hs]
   rfl
 
 theorem total_zero (ns : List Node) : total (fun _ => 0) (fun _ => 0) ns = 0 := by
